@@ -255,6 +255,24 @@ Section Refine.
       rewrite refine_odd by lia. rewrite mid_right0 by exact H0. rewrite Hp. reflexivity.
   Qed.
 
+  (* the same with hypotheses about THIS axis only (a middle that depends on the grid's state, e.g. on grid.h) *)
+  Theorem refine_admissible_axis xs o h : admissible xs o h ->
+    mid (nthq xs (o - 1)) (nthq xs o) == - (h / 2) -> mid (nthq xs o) (nthq xs (o + 1)) == h / 2 ->
+    admissible (refine_axis mid xs) (2 * o) (h / 2).
+  Proof.
+    intros (Hi & Ho1 & Ho2 & Hh & H0 & Hm & Hp) ML MR.
+    assert (N : xs <> []) by (intro E; rewrite E in Ho2; simpl in Ho2; lia).
+    unfold admissible. repeat split.
+    - apply refine_incr; exact Hi.
+    - lia.
+    - rewrite refine_length by exact N. lia.
+    - apply Qlt_shift_div_l; lra.
+    - rewrite refine_even by lia. exact H0.
+    - replace (2 * o - 1)%nat with (2 * (o - 1) + 1)%nat by lia.
+      rewrite refine_odd by lia. replace (o - 1 + 1)%nat with o by lia. exact ML.
+    - rewrite refine_odd by lia. exact MR.
+  Qed.
+
   (* the one-step nesting statement *)
   Theorem refine_nests xs : incr xs -> xs <> [] ->
     length (refine_axis mid xs) = (2 * length xs - 1)%nat
@@ -541,37 +559,30 @@ Proof. intros Hc H. assert (E : b == b / c * c) by (field; lra). rewrite E. appl
 
 (* CTMCUniformGrid (repaired: ValueError unless int(|l|/h) >= 2 and int(r/h) >= 1), linspace as its mathematical sequence *)
 Theorem uniform_admissible l h r xs o : 0 < h -> l < 0 -> 0 < r -> uniform_axis l h r = Some (xs, o) ->
-  admissible xs o h /\ headq xs == l /\ (lastq xs == r \/ lastq xs == h).
+  admissible xs o h /\ headq xs == l /\ lastq xs == r.
 Proof.
   intros Hh Hl Hr. unfold uniform_axis.
   set (nl := Z.to_nat (Qfloor (Qabs l / h))). set (nr := Z.to_nat (Qfloor (r / h))).
-  destruct (Nat.ltb_spec nl 2) as [|Hnl]; [discriminate|]. destruct (Nat.ltb_spec nr 1) as [|Hnr]; [discriminate|].
+  destruct (Nat.ltb_spec nl 2) as [|Hnl]; [discriminate|]. destruct (Nat.ltb_spec nr 2) as [|Hnr]; [discriminate|].
   cbn [orb]. intros E.
   assert (L2 : 2 <= Qabs l / h).
   { change 2 with (inject_Z (Z.of_nat 2)). apply floor_ge. unfold nl in Hnl. lia. }
-  assert (R1 : 1 <= r / h).
-  { change 1 with (inject_Z (Z.of_nat 1)). apply floor_ge. unfold nr in Hnr. lia. }
+  assert (R2 : 2 <= r / h).
+  { change 2 with (inject_Z (Z.of_nat 2)). apply floor_ge. unfold nr in Hnr. lia. }
   assert (Labs : Qabs l == - l) by (apply Qabs_neg; lra).
   assert (L2' : 2 * h <= - l).
   { rewrite <- Labs. apply div_ge in L2; [|exact Hh]. lra. }
-  assert (R1' : h <= r).
-  { apply div_ge in R1; [|exact Hh]. lra. }
+  assert (R2' : 2 * h <= r).
+  { apply div_ge in R2; [|exact Hh]. lra. }
   pose proof (assembly_admissible (linspace l (- h) nl) (linspace h r nr) h) as A.
   assert (I1 : incr (linspace l (- h) nl)) by (apply linspace_incr; lra).
-  assert (FR : forall k, (1 <= k <= nr)%nat -> inject_Z (Z.of_nat k) <= r / h) by (intros k Hk; apply floor_ge; unfold nr in Hk; lia).
-  assert (I2 : incr (linspace h r nr)).
-  { destruct (Nat.le_gt_cases 2 nr) as [H2|H2].
-    - apply linspace_incr. specialize (FR 2%nat ltac:(lia)). change (inject_Z (Z.of_nat 2)) with 2 in FR.
-      apply div_ge in FR; [|exact Hh]. lra.
-    - replace nr with 1%nat by lia. exact I. }
+  assert (I2 : incr (linspace h r nr)) by (apply linspace_incr; lra).
   assert (N1 : linspace l (- h) nl <> []) by (intro E0; apply (f_equal (@length Q)) in E0; rewrite linspace_length in E0; simpl in E0; lia).
   assert (N2 : linspace h r nr <> []) by (intro E0; apply (f_equal (@length Q)) in E0; rewrite linspace_length in E0; simpl in E0; lia).
-  specialize (A I1 I2 N1 N2 Hh (linspace_last l (- h) nl Hnl) (linspace_head h r nr Hnr)).
+  specialize (A I1 I2 N1 N2 Hh (linspace_last l (- h) nl Hnl) (linspace_head h r nr ltac:(lia))).
   unfold assemble in *. destruct A as (A1 & A2 & A3 & A4). injection E as E1 E2.
   assert (X1 : headq xs = headq (linspace l (- h) nl)) by (rewrite <- E1; exact A2).
   assert (X2 : lastq xs = lastq (linspace h r nr)) by (rewrite <- E1; exact A3).
   split; [rewrite <- E1, <- E2; exact A1|]. split; [rewrite X1; apply linspace_head; lia|].
-  rewrite X2. destruct (Nat.le_gt_cases 2 nr) as [H2|H2].
-  - left. apply linspace_last. exact H2.
-  - right. replace nr with 1%nat by lia. reflexivity.
+  rewrite X2. apply linspace_last. exact Hnr.
 Qed.
